@@ -23,11 +23,14 @@ func IsSafeRedirectTarget(target string) bool {
 	if len(target) == 0 || target[0] != '/' {
 		return false
 	}
-	if len(target) > 1 && (target[1] == '/' || target[1] == '\\') {
+	if len(target) > 1 && target[1] == '/' {
 		return false
 	}
 	for i := 0; i < len(target); i++ {
-		if target[i] < 0x20 || target[i] == 0x7f {
+		// Browsers read a backslash as a slash, and http.Redirect cleans dot
+		// segments out of the path first: "/./\host" leaves as "/\host". A
+		// backslash has no business in a redirect target, wherever it is.
+		if target[i] < 0x20 || target[i] == 0x7f || target[i] == '\\' {
 			return false
 		}
 	}
